@@ -12,7 +12,7 @@
 EXTENDS ArchiveFormat, CompressRef, Json, IOUtils
 
 Rec == ndJsonDeserialize(IOEnv.TRACE)
-MaxVerdicts == 40
+MaxVerdicts == 200
 VARIABLES l, sc, digest, skipping, verdicts, nverdicts, nscen, nok
 vars == <<l, sc, digest, skipping, verdicts, nverdicts, nscen, nok>>
 Ev == Rec[l]
@@ -51,7 +51,13 @@ ArchiveRule(e) ==
   ELSE "ok"
 
 ArchiveEv == /\ Step("archive")
-             /\ LET r == ArchiveRule(Ev) IN IF r = "ok" THEN NoFlag /\ digest' = (IF "digest" \in DOMAIN Ev THEN Ev.digest ELSE "") ELSE Flag(r) /\ UNCHANGED digest
+             \* a verdict on an archive that was produced does not end the scenario: its clone and its re-runs are still judged (other properties own those rules)
+             /\ LET r == ArchiveRule(Ev) IN
+                IF r = "ok" THEN NoFlag /\ digest' = (IF "digest" \in DOMAIN Ev THEN Ev.digest ELSE "")
+                ELSE IF Ev.res = "ok" /\ "digest" \in DOMAIN Ev /\ ~sc.expect_reject
+                THEN /\ verdicts' = IF nverdicts < MaxVerdicts THEN Append(verdicts, [scenario |-> nscen, line |-> l, rule |-> r]) ELSE verdicts
+                     /\ nverdicts' = nverdicts + 1 /\ UNCHANGED skipping /\ digest' = Ev.digest
+                ELSE Flag(r) /\ UNCHANGED digest
              /\ UNCHANGED <<sc, nscen, nok>>
 CloneEv == /\ Step("clone")
            /\ IF Ev.res = "panic" THEN Flag("C01 ROUNDTRIP: clone of the produced archive panicked")
